@@ -438,7 +438,11 @@ def _generate_subctls(snapshot, ctls, subctls, rst_handler, cg):
             subctls[start] = []
             for a, size, mc, op_id, op, rst_args in decode(snapshot, start, blocks[i + 1][0], rst_handler):
                 if cg:
-                    comment = cg.get_comment(Instruction(a, snapshot[a:a + size]))
+                    if a + size == 65536 and op.startswith('DEFB'):
+                        # An instruction cut off by the 64K boundary is data
+                        comment = ''
+                    else:
+                        comment = cg.get_comment(Instruction(a, snapshot[a:a + size]))
                     subctls[start].append((a, ' ', None, comment))
                 if rst_args:
                     rst_args_len = sum(s[0] for s in rst_args[1])
